@@ -54,6 +54,31 @@ def load_api(only_auth=False):
         return s
     api["sign_edit_sign"] = sign_edit_sign
 
+    KCLS = {"pub": C.PublicKey, "priv": C.PrivateKey}
+    api["key_from_bytes"] = lambda cls, v: KCLS[cls].from_bytes(v)
+    api["key_to_bytes"] = lambda cls, k: KCLS[cls].to_bytes(k)
+    api["key_to_hex"] = lambda cls, k: KCLS[cls].to_hex(k)
+    api["key_from_hex"] = lambda cls, v: KCLS[cls].from_hex(v)
+    api["key_is_equivalent_to"] = lambda cls, a, b: KCLS[cls].is_equivalent_to(a, b)
+    api["public_key_of"] = lambda k: k.public_key()
+    api["sign_raw"] = lambda seed, msg: C.PrivateKey.from_bytes(seed).sign(msg)
+
+    def keyfile_roundtrip(seed):
+        d = tempfile.mkdtemp(prefix="cctw")
+        old = M.gen_keys
+        try:
+            priv = C.PrivateKey.from_bytes(seed)
+            M.gen_keys = lambda: (priv, priv.public_key())
+            name = os.path.join(d, "k")
+            r1, r2 = M.gen_and_write_keys(name)
+            raw = (open(name + ".pri", "rb").read(), open(name + ".pub", "rb").read())
+            lp, lq = C.keyfiles_to_keys(name)
+            return [raw[0], raw[1], lp, lq, C.PrivateKey.is_equivalent_to(r1, lp), C.PublicKey.is_equivalent_to(r2, lq)]
+        finally:
+            M.gen_keys = old
+            shutil.rmtree(d, ignore_errors=True)
+    api["keyfile_roundtrip"] = keyfile_roundtrip
+
     def sign_all_value(r, keyhex):
         d = tempfile.mkdtemp(prefix="cctw")
         try:
